@@ -3,7 +3,8 @@ From Coq Require Import List String.
 From VQ.Gen Require Import npinit_rfsq.
 Import ListNotations.
 Open Scope string_scope.
-Lemma pin_npinit_rfsq : npinit_rfsq =
+Definition pinned_npinit_rfsq : list string :=
   ["scales=torch.stack(scales)";
    "local levels_tensor=torch.Tensor(levels)"].
+Lemma pin_npinit_rfsq : npinit_rfsq = pinned_npinit_rfsq.
 Proof. reflexivity. Qed.
